@@ -75,8 +75,9 @@ theorem floatLen_eq_count_of_dvd (num den : Nat) (h : 0 < num) (hd : num ∣ den
   rw [e1, hex]
   exact le_antisymm (ceilShift_le_of _ _ _ (le_refl _)) (le_ceilShift_of _ _ _ (le_refl _))
 
-/-- **Sample count**: `(N-1)·k + 1` samples for `N ≥ 1` points and `k ≥ 2` grid values per unit step. -/
-theorem chspline_length (N kk : Nat) (interval : ℝ) (p : Nat → ℝ) (hN : 1 ≤ N) (hk : 2 ≤ kk) :
+/-- **Sample count**: `(N-1)·k + 1` samples for `N ≥ 2` points (the code raises for a single point) and `k ≥ 2` grid
+values per unit step. -/
+theorem chspline_length (N kk : Nat) (interval : ℝ) (p : Nat → ℝ) (hN : 2 ≤ N) (hk : 2 ≤ kk) :
     (chspline N kk interval p).length = (N - 1) * kk + 1 := by
   unfold chspline outLen
   rw [List.length_map, List.length_range]
@@ -85,6 +86,31 @@ theorem chspline_length (N kk : Nat) (interval : ℝ) (p : Nat → ℝ) (hN : 1 
   obtain ⟨n, rfl⟩ : ∃ n, N = n + 1 := ⟨N - 1, by omega⟩
   simp only [Nat.add_sub_cancel, Nat.succ_mul]
   omega
+
+/-- **Sample count of the public entry point** (ties the grid size to `floatLen`, pass 5): `chspline(points, num/den)` returns
+`(N-1)·k + 1` samples with `k = floatLen num den = ⌈fl64(1/interval)⌉`, and that `k` is the number of multiples of the interval in
+`[0,1)` or one less (`floatLen_le_count`). `2 ≤ k` holds for every double `interval < 1` (checked exactly by the `flen` stream). -/
+theorem chsplineAuto_length (N num den : Nat) (interval : ℝ) (p : Nat → ℝ) (hN : 2 ≤ N) (hnum : 0 < num)
+    (hk : 2 ≤ floatLen num den) :
+    (chsplineAuto N num den interval p).length = (N - 1) * floatLen num den + 1 ∧
+      floatLen num den ≤ count num den ∧ count num den ≤ floatLen num den + 1 := by
+  unfold chsplineAuto
+  exact ⟨chspline_length N _ interval p hN hk, floatLen_le_count num den hnum⟩
+
+/-- the same for `bspline`: `(N-3)·k + 1` poses (`(N+1)·k + 1` with `extrapolate`), `k = floatLen num den` -/
+theorem bsplineAuto_length (eps : ℝ) (N num den : Nat) (interval : ℝ) (ex : Bool) (P : Nat → SE3 ℝ) (out : List (SE3 ℝ))
+    (h : bsplineAuto eps N num den interval ex P = some out) :
+    out.length = (if ex then N + 1 else N - 3) * floatLen num den + 1 := by
+  unfold bsplineAuto bspline at h
+  cases ex with
+  | true =>
+    simp only [if_true, Option.some.injEq] at h
+    rw [← h]; unfold bsplineCore; simp
+  | false =>
+    by_cases hN : N < 4
+    · simp [hN] at h
+    · simp only [Bool.false_eq_true, if_false, hN, Option.some.injEq] at h
+      rw [← h]; unfold bsplineCore; simp
 
 /-- **Interpolation**: the spline passes through every input point at its integer time (all `N`, all `i < N`). -/
 theorem evalAt_knot (N : Nat) (p : Nat → ℝ) (i : Nat) (hi : i < N) : evalAt N p (i : ℝ) = p i := by
@@ -173,51 +199,12 @@ theorem hermite_deriv (p0 m0 p1 m1 : ℝ) :
   · have := cubic_hasDerivAt p0 m0 (-3 * p0 - 2 * m0 + 3 * p1 - m1) (2 * p0 + m0 - 2 * p1 + m1) 1
     convert this using 1; ring
 
-/-- **Locality / independence of the other points** (hardening class 7): the value at time `v` only reads the four
-points `idx-1 … idx+2` around its segment `idx = searchIdx N v`; two point sequences that agree there give the
-same sample — whatever else is in the sequence (or in the rest of a batch). (`idx + 2 ≤ N` holds for every grid time.) -/
-theorem evalAt_congr (N : Nat) (p p' : Nat → ℝ) (v : ℝ) (hle : searchIdx N v + 2 ≤ N)
-    (h : ∀ j, searchIdx N v ≤ j + 1 → j ≤ searchIdx N v + 2 → p j = p' j) : evalAt N p v = evalAt N p' v := by
-  set i := searchIdx N v with hi
-  have e0 : p i = p' i := h i (by omega) (by omega)
-  have e1 : p (i + 1) = p' (i + 1) := h (i + 1) (by omega) (by omega)
-  have hs0 : slope N p i = slope N p' i := by
-    unfold slope
-    simp only [diff1_real]
-    by_cases hz : i = 0
-    · simp only [hz, if_true]
-      rw [hz] at e0 e1; simp only [Nat.zero_add] at e1; rw [e0, e1]
-    · have hne : ¬ i + 1 = N := by omega
-      have em : p (i - 1) = p' (i - 1) := h (i - 1) (by omega) (by omega)
-      have ei : i - 1 + 1 = i := by omega
-      simp only [hz, hne, if_false, ei]
-      rw [e0, e1, em]
-  have hs1 : slope N p (i + 1) = slope N p' (i + 1) := by
-    unfold slope
-    simp only [diff1_real]
-    have hz : ¬ i + 1 = 0 := by omega
-    by_cases hl : i + 1 + 1 = N
-    · have e2 : N - 2 = i := by omega
-      simp only [hz, hl, if_false, if_true, e2]
-      rw [e0, e1]
-    · have e2 : p (i + 1 + 1) = p' (i + 1 + 1) := h (i + 1 + 1) (by omega) (by omega)
-      simp only [hz, hl, if_false, Nat.add_sub_cancel]
-      rw [e0, e1, e2]
-  unfold evalAt
-  simp only [← hi, e0, e1, hs0, hs1]
-
 /-! ## bspline -/
 
 /-- **Pose count**: `(N-3)·k + 1` poses. -/
 theorem bsplineCore_length (eps : ℝ) (N kk : Nat) (interval : ℝ) (P : Nat → SE3 ℝ) :
     (bsplineCore eps N kk interval P).length = (N - 3) * kk + 1 := by
   unfold bsplineCore; simp
-
-/-- with `extrapolate=True` there are `(N+1)·k + 1` poses; without, `(N-3)·k+1` and fewer than 4 poses are refused -/
-theorem bspline_length (eps : ℝ) (N kk : Nat) (interval : ℝ) (ex : Bool) (P : Nat → SE3 ℝ) :
-    bspline eps N kk interval ex P =
-      if ex then some (bsplineCore eps (N + 4) kk interval (pad N P))
-      else if N < 4 then none else some (bsplineCore eps N kk interval P) := rfl
 
 theorem bspline_extrapolate_length (eps : ℝ) (N kk : Nat) (interval : ℝ) (P : Nat → SE3 ℝ) (out : List (SE3 ℝ))
     (h : bspline eps N kk interval true P = some out) : out.length = (N + 1) * kk + 1 := by
@@ -279,83 +266,6 @@ theorem bspline_left_equivariant (eps : ℝ) (G : SE3 ℝ) (N kk : Nat) (interva
     by_cases h : N < 4
     · simp [h]
     · simp only [Bool.false_eq_true, if_false, h, Option.map_some, core N P hP]
-
-/-- **A segment only reads its own four control poses** (hardening classes 4/7: no dependence on the rest of the
-sequence, of the batch, or on earlier calls — the model is a pure function of exactly these arguments). -/
-theorem bsplineAt_congr (eps : ℝ) (P P' : Nat → SE3 ℝ) (i : Nat) (u : ℝ)
-    (h : ∀ j, i ≤ j → j ≤ i + 3 → P j = P' j) : bsplineAt eps P i u = bsplineAt eps P' i u := by
-  unfold bsplineAt
-  rw [h i (by omega) (by omega), h (i + 1) (by omega) (by omega), h (i + 2) (by omega) (by omega),
-    h (i + 3) (by omega) (by omega)]
-
-/-- **The underlying cubic B-spline basis** (pass 3): the differences of the cumulative weights,
-`b₀ = 1 - w₁`, `b₁ = w₁ - w₂`, `b₂ = w₂ - w₃`, `b₃ = w₃`, are the uniform cubic B-spline basis functions; they are
-non-negative on `[0,1]` and sum to one (partition of unity) — for every segment, hence every number of control poses. -/
-theorem bw_partition_of_unity (u : ℝ) (h0 : 0 ≤ u) (h1 : u ≤ 1) :
-    (1 - bw1 u = (1 - u) ^ 3 / 6) ∧ (bw1 u - bw2 u = (4 - 6 * u ^ 2 + 3 * u ^ 3) / 6) ∧
-    (bw2 u - bw3 u = (1 + 3 * u + 3 * u ^ 2 - 3 * u ^ 3) / 6) ∧ (bw3 u = u ^ 3 / 6) ∧
-    0 ≤ 1 - bw1 u ∧ 0 ≤ bw1 u - bw2 u ∧ 0 ≤ bw2 u - bw3 u ∧ 0 ≤ bw3 u ∧
-    (1 - bw1 u) + (bw1 u - bw2 u) + (bw2 u - bw3 u) + bw3 u = 1 := by
-  rw [bw1_cubic, bw2_cubic, bw3_cubic]
-  simp only
-  have hu : 0 ≤ 1 - u := by linarith
-  refine ⟨by ring, by ring, by ring, by ring, ?_, ?_, ?_, ?_, by ring⟩
-  · have : 1 - (5 / 6 + 1 / 2 * u + -1 / 2 * u ^ 2 + 1 / 6 * u ^ 3) = (1 - u) ^ 3 / 6 := by ring
-    rw [this]; positivity
-  · have : 5 / 6 + 1 / 2 * u + -1 / 2 * u ^ 2 + 1 / 6 * u ^ 3 - (1 / 6 + 1 / 2 * u + 1 / 2 * u ^ 2 + -1 / 3 * u ^ 3)
-        = (1 + 3 * (1 - u) * (1 + u * (1 - u))) / 6 := by ring
-    rw [this]
-    have : 0 ≤ u * (1 - u) := mul_nonneg h0 hu
-    have : 0 ≤ (1 - u) * (1 + u * (1 - u)) := mul_nonneg hu (by linarith)
-    linarith
-  · have : 1 / 6 + 1 / 2 * u + 1 / 2 * u ^ 2 + -1 / 3 * u ^ 3 - (0 + 0 * u + 0 * u ^ 2 + 1 / 6 * u ^ 3)
-        = (1 + 3 * u + 3 * u ^ 2 * (1 - u)) / 6 := by ring
-    rw [this]
-    have : 0 ≤ u ^ 2 * (1 - u) := mul_nonneg (sq_nonneg u) hu
-    linarith
-  · have : (0 : ℝ) + 0 * u + 0 * u ^ 2 + 1 / 6 * u ^ 3 = u ^ 3 / 6 := by ring
-    rw [this]; positivity
-
-/-- the cumulative weights are ordered `1 ≥ w₁ ≥ w₂ ≥ w₃ ≥ 0` on `[0,1]` -/
-theorem bw_ordered (u : ℝ) (h0 : 0 ≤ u) (h1 : u ≤ 1) : bw3 u ≥ 0 ∧ bw2 u ≥ bw3 u ∧ bw1 u ≥ bw2 u ∧ 1 ≥ bw1 u := by
-  obtain ⟨_, _, _, _, a, b, c, d, _⟩ := bw_partition_of_unity u h0 h1
-  exact ⟨d, by linarith, by linarith, by linarith⟩
-
-/-- first and second derivatives of the cumulative weights (every `u`) -/
-theorem bw_hasDerivAt (u : ℝ) :
-    HasDerivAt bw1 ((1 - u) ^ 2 / 2) u ∧ HasDerivAt bw2 ((1 + 2 * u - 2 * u ^ 2) / 2) u ∧ HasDerivAt bw3 (u ^ 2 / 2) u ∧
-    HasDerivAt (fun v : ℝ => (1 - v) ^ 2 / 2) (u - 1) u ∧ HasDerivAt (fun v : ℝ => (1 + 2 * v - 2 * v ^ 2) / 2) (1 - 2 * u) u ∧
-    HasDerivAt (fun v : ℝ => v ^ 2 / 2) u u := by
-  refine ⟨?_, ?_, ?_, ?_, ?_, ?_⟩
-  · rw [bw1_cubic]; convert cubic_hasDerivAt (5 / 6) (1 / 2) (-1 / 2) (1 / 6) u using 1; ring
-  · rw [bw2_cubic]; convert cubic_hasDerivAt (1 / 6) (1 / 2) (1 / 2) (-1 / 3) u using 1; ring
-  · rw [bw3_cubic]; convert cubic_hasDerivAt 0 0 0 (1 / 6) u using 1; ring
-  · have := quad_hasDerivAt (1 / 2) (-1) (1 / 2) u
-    convert this using 1
-    · funext v; ring
-    · ring
-  · have := quad_hasDerivAt (1 / 2) 1 (-1) u
-    convert this using 1
-    · funext v; ring
-    · ring
-  · have := quad_hasDerivAt 0 0 (1 / 2) u
-    convert this using 1
-    · funext v; ring
-    · ring
-
-/-- **C² joins of the weight functions** (pass 3). Write segment `i` with the four weights `(w₁,w₂,w₃,0)(u)` on the relative
-motions `(δ₁,δ₂,δ₃,δ₄)` and segment `i+1` with `(1,w₁,w₂,w₃)(u)` on the *same* four motions (`bsplineAt_as_four`,
-`bsplineAt_succ_as_four`). At the join the two weight 4-vectors agree in value, first and second derivative:
-`(1, 5/6, 1/6, 0)`, `(0, 1/2, 1/2, 0)`, `(0, -1, 1, 0)` — for every join, i.e. every number of control poses. -/
-theorem bw_join_C2 :
-    (bw1 (1 : ℝ) = 1 ∧ bw2 (1 : ℝ) = bw1 0 ∧ bw3 (1 : ℝ) = bw2 0 ∧ (0 : ℝ) = bw3 0) ∧
-    (((1 : ℝ) - 1) ^ 2 / 2 = 0 ∧ (1 + 2 * (1 : ℝ) - 2 * 1 ^ 2) / 2 = (1 - (0 : ℝ)) ^ 2 / 2
-      ∧ (1 : ℝ) ^ 2 / 2 = (1 + 2 * (0 : ℝ) - 2 * 0 ^ 2) / 2 ∧ (0 : ℝ) = 0 ^ 2 / 2) ∧
-    (((1 : ℝ) - 1 = 0) ∧ (1 - 2 * (1 : ℝ) = 0 - 1) ∧ ((1 : ℝ) = 1 - 2 * 0) ∧ ((0 : ℝ) = 0)) := by
-  obtain ⟨a1, b1, c1⟩ := bw_one
-  obtain ⟨a0, b0, c0⟩ := bw_zero
-  refine ⟨⟨a1, by rw [b1, a0], by rw [c1, b0], c0.symm⟩, ⟨by norm_num, by norm_num, by norm_num, by norm_num⟩,
-    ⟨by norm_num, by norm_num, by norm_num, rfl⟩⟩
 
 /-- the common map of two consecutive segments: `P₀ · Exp(a δ₁) · Exp(b δ₂) · Exp(c δ₃) · Exp(d δ₄)` -/
 noncomputable def fourPose (eps : ℝ) (P : Nat → SE3 ℝ) (i : Nat) (a b c d : ℝ) : SE3 ℝ :=
@@ -436,61 +346,22 @@ theorem exp_one_parameter_closed (eps : ℝ) (xi : se3 ℝ) (a b : ℝ) (h0 : 0 
     SE3Mul (se3Exp eps (scale xi a)) (se3Exp eps (scale xi b)) = se3Exp eps (scale xi (a + b)) :=
   se3Exp_add eps xi a b h0 ha hb hA hB
 
-/-- **One-parameter law on the Taylor branch, rotation part** (pass 3 — the branch excluded from
-`exp_one_parameter_closed`): when all three angles `aθ, bθ, (a+b)θ` are at most `eps ≤ 1` (so the code uses its truncated
-series three times), `Exp(aφ)·Exp(bφ)` and `Exp((a+b)φ)` differ by at most `eps⁶/700` in the scalar part and `eps⁷/5000` in
-the norm of the vector part — the law holds up to the truncation order, for every `φ`, `a, b ≥ 0`. -/
-theorem so3Exp_add_taylor (eps : ℝ) (φ : Vec3 ℝ) (a b : ℝ) (ha : 0 ≤ a) (hb : 0 ≤ b) (h1 : eps ≤ 1)
-    (hAB : (a + b) * φ.norm ≤ eps) :
-    |((so3Exp eps (φ.smul a)).mul (so3Exp eps (φ.smul b))).w - (so3Exp eps (φ.smul (a + b))).w| ≤ eps ^ 6 / 700 ∧
-    (((so3Exp eps (φ.smul a)).mul (so3Exp eps (φ.smul b))).vec.sub (so3Exp eps (φ.smul (a + b))).vec).norm ≤ eps ^ 7 / 5000 := by
-  have hθ := Vec3.norm_nonneg φ
-  set θ := φ.norm with hθdef
-  have hu : 0 ≤ a * θ := mul_nonneg ha hθ
-  have hv : 0 ≤ b * θ := mul_nonneg hb hθ
-  have hsum : a * θ + b * θ = (a + b) * θ := by ring
-  have hs : a * θ + b * θ ≤ 1 := by rw [hsum]; linarith
-  have hA : ¬ eps < a * θ := by apply not_lt.mpr; nlinarith
-  have hB : ¬ eps < b * θ := by apply not_lt.mpr; nlinarith
-  have hC : ¬ eps < (a + b) * θ := not_lt.mpr hAB
-  rw [so3Exp_smul_taylor eps φ a ha hA, so3Exp_smul_taylor eps φ b hb hB,
-    so3Exp_smul_taylor eps φ (a + b) (by linarith) hC, axisQuat_mul, ← Vec3.norm_sq, ← hθdef]
-  have hs0 : 0 ≤ a * θ + b * θ := by linarith
-  have hp6 : (a * θ + b * θ) ^ 6 ≤ eps ^ 6 := pow_le_pow_left₀ hs0 (by rw [hsum]; exact hAB) 6
-  have hp7 : (a * θ + b * θ) ^ 7 ≤ eps ^ 7 := pow_le_pow_left₀ hs0 (by rw [hsum]; exact hAB) 7
-  constructor
-  · have := taylor_dw (a * θ) (b * θ) hu hv hs
-    have e : (axisQuat φ (tC (a * θ) * (b * tS (b * θ)) + a * tS (a * θ) * tC (b * θ))
-        (tC (a * θ) * tC (b * θ) - a * tS (a * θ) * (b * tS (b * θ)) * (θ * θ))).w
-        - (axisQuat φ ((a + b) * tS ((a + b) * θ)) (tC ((a + b) * θ))).w
-        = tC (a * θ) * tC (b * θ) - a * θ * (b * θ) * tS (a * θ) * tS (b * θ) - tC (a * θ + b * θ) := by
-      unfold axisQuat; simp only [hsum]; ring
-    rw [e]; linarith
-  · have hvec : ((axisQuat φ (tC (a * θ) * (b * tS (b * θ)) + a * tS (a * θ) * tC (b * θ))
-        (tC (a * θ) * tC (b * θ) - a * tS (a * θ) * (b * tS (b * θ)) * (θ * θ))).vec.sub
-        (axisQuat φ ((a + b) * tS ((a + b) * θ)) (tC ((a + b) * θ))).vec)
-        = φ.smul (tC (a * θ) * (b * tS (b * θ)) + a * tS (a * θ) * tC (b * θ) - (a + b) * tS ((a + b) * θ)) := by
-      unfold axisQuat Quat.vec Vec3.sub Vec3.smul; ext <;> simp only [] <;> ring
-    rw [hvec, norm_smul_abs, ← hθdef]
-    have := taylor_dv (a * θ) (b * θ) hu hv hs
-    have e : |tC (a * θ) * (b * tS (b * θ)) + a * tS (a * θ) * tC (b * θ) - (a + b) * tS ((a + b) * θ)| * θ
-        = |a * θ * tS (a * θ) * tC (b * θ) + b * θ * tS (b * θ) * tC (a * θ) - (a * θ + b * θ) * tS (a * θ + b * θ)| := by
-      rw [← abs_of_nonneg hθ, ← abs_mul, abs_of_nonneg hθ]
-      congr 1; simp only [hsum]; ring
-    rw [e]; linarith
-
 /-- **`Log(Exp ξ) = ξ`** for the modelled functions: `eps < ‖φ‖ < π`, generic regime (`sin(θ/2), cos(θ/2) > eps`). -/
 theorem log_exp_closed (eps : ℝ) (xi : se3 ℝ) (h0 : 0 ≤ eps) (hθ : eps < xi.phi.norm) (hπ : xi.phi.norm < Real.pi)
     (hs : eps < Real.sin (xi.phi.norm / 2)) (hc : eps < Real.cos (xi.phi.norm / 2)) :
     SE3Log eps (se3Exp eps xi) = xi := SE3Log_se3Exp eps xi h0 hθ hπ hs hc
 
 /-- **Constant-twist reproduction with no hypothesis about `Exp`/`Log` left** (closed-form branch): the control
-poses are the samples `Pⱼ = T₀·Exp(jξ)` of the motion, `eps < ‖φ‖ < π` in the generic regime, segment `i ≥ 1`, and the
-three weighted angles `wₖ(u)·‖φ‖` exceed `eps`.  Then segment `i` at parameter `u` is the motion at time `i+1+u`. -/
+poses are the samples `Pⱼ = T₀·Exp(jξ)` of the motion, `eps < ‖φ‖ < π` in the generic regime, EVERY segment `i ≥ 0`, every
+`u ≥ 0` INCLUDING the knot samples `u = 0` (there the third weight is 0 and the third factor is `Exp 0 = 1`); the weighted angles
+`w₁(u)‖φ‖`, `w₂(u)‖φ‖` (and `w₃(u)‖φ‖` for `u ≠ 0`) exceed `eps`. Then segment `i` at parameter `u` is the motion at time `i+1+u`.
+
+NOT covered (stated, not proved): twists with `0 < ‖φ‖ ≤ eps` or weighted angles `≤ eps` (Taylor branch: the law holds only up to
+`O(eps⁶)`, see `so3Exp_add_taylor`), and `‖φ‖` at/near `π`. Pure translations (`φ = 0`): `bsplineAt_const_twist_translation`. -/
 theorem bsplineAt_const_twist_closed (eps : ℝ) (h0 : 0 ≤ eps) (T0 : SE3 ℝ) (hT0 : SE3.Valid T0) (xi : se3 ℝ)
     (hθ : eps < xi.phi.norm) (hπ : xi.phi.norm < Real.pi) (hs : eps < Real.sin (xi.phi.norm / 2))
-    (hc : eps < Real.cos (xi.phi.norm / 2)) (i : Nat) (hi : 1 ≤ i) (u : ℝ) (hu : 0 ≤ u)
-    (hw1 : eps < bw1 u * xi.phi.norm) (hw2 : eps < bw2 u * xi.phi.norm) (hw3 : eps < bw3 u * xi.phi.norm) :
+    (hc : eps < Real.cos (xi.phi.norm / 2)) (i : Nat) (u : ℝ) (hu : 0 ≤ u)
+    (hw1 : eps < bw1 u * xi.phi.norm) (hw2 : eps < bw2 u * xi.phi.norm) (hw3 : eps < bw3 u * xi.phi.norm ∨ u = 0) :
     bsplineAt eps (fun j => SE3Mul T0 (se3Exp eps (scale xi (j : ℝ)))) i u
       = SE3Mul T0 (se3Exp eps (scale xi ((i : ℝ) + 1 + u))) := by
   have hθ0 : 0 < xi.phi.norm := lt_of_le_of_lt h0 hθ
@@ -501,21 +372,61 @@ theorem bsplineAt_const_twist_closed (eps : ℝ) (h0 : 0 ≤ eps) (T0 : SE3 ℝ)
     linarith
   have p1 := pos_of _ hw1
   have p2 := pos_of _ hw2
-  have p3 := pos_of _ hw3
-  have hipos : (0 : ℝ) < (i : ℝ) := by exact_mod_cast hi
-  have hi1 : (1 : ℝ) ≤ (i : ℝ) := by exact_mod_cast hi
-  have hiθ : eps < (i : ℝ) * xi.phi.norm := by nlinarith
-  have hEi : SE3.Valid (se3Exp eps (scale xi (i : ℝ))) :=
-    se3Exp_valid eps _ h0 (Or.inl (by rw [scale_phi_norm xi _ hipos]; exact hiθ))
+  have hstep : ∀ j : Nat, delta eps (SE3Mul T0 (se3Exp eps (scale xi (j : ℝ))))
+      (SE3Mul T0 (se3Exp eps (scale xi ((j + 1 : ℕ) : ℝ)))) = xi := by
+    intro j
+    rcases Nat.eq_zero_or_pos j with rfl | hj
+    · exact delta_twist_step_zero eps T0 xi h0 hT0 hθ hπ hs hc
+    · exact delta_twist_step eps T0 xi j h0 hT0 hj hθ hπ hs hc
+  have h1u : eps < (1 + u) * xi.phi.norm := by nlinarith
+  have hEi : SE3.Valid (se3Exp eps (scale xi (i : ℝ))) := by
+    rcases Nat.eq_zero_or_pos i with rfl | hi
+    · rw [Nat.cast_zero, scale_zero_right, se3Exp_zero eps h0]; exact SE3_valid_one
+    · have hipos : (0 : ℝ) < (i : ℝ) := by exact_mod_cast hi
+      have hi1 : (1 : ℝ) ≤ (i : ℝ) := by exact_mod_cast hi
+      exact se3Exp_valid eps _ h0 (Or.inl (by rw [scale_phi_norm xi _ hipos]; nlinarith))
   apply bsplineAt_const_twist eps T0 xi _ i u hT0 hEi rfl
-  · exact delta_twist_step eps T0 xi i h0 hT0 hi hθ hπ hs hc
-  · exact delta_twist_step eps T0 xi (i + 1) h0 hT0 (by omega) hθ hπ hs hc
-  · exact delta_twist_step eps T0 xi (i + 2) h0 hT0 (by omega) hθ hπ hs hc
+  · exact hstep i
+  · exact hstep (i + 1)
+  · exact hstep (i + 2)
   · exact se3Exp_add eps xi _ _ h0 p1 p2 hw1 hw2
-  · exact se3Exp_add eps xi _ _ h0 (by linarith) p3 (by nlinarith) hw3
-  · have : eps < (1 + u) * xi.phi.norm := by nlinarith
-    have := se3Exp_add eps xi (i : ℝ) (1 + u) h0 hipos (by linarith) hiθ this
-    rw [this]; congr 2; ring
+  · rcases hw3 with hw3 | rfl
+    · exact se3Exp_add eps xi _ _ h0 (by linarith) (pos_of _ hw3) (by nlinarith) hw3
+    · rw [bw_zero.2.2, scale_zero_right, se3Exp_zero eps h0, SE3_mul_one, add_zero]
+  · rcases Nat.eq_zero_or_pos i with rfl | hi
+    · rw [Nat.cast_zero, scale_zero_right, se3Exp_zero eps h0, SE3_one_mul]; congr 2; ring
+    · have hipos : (0 : ℝ) < (i : ℝ) := by exact_mod_cast hi
+      have hi1 : (1 : ℝ) ≤ (i : ℝ) := by exact_mod_cast hi
+      have := se3Exp_add eps xi (i : ℝ) (1 + u) h0 hipos (by linarith) (by nlinarith) h1u
+      rw [this]; congr 2; ring
+
+/-- **The spline through the samples of a constant-twist motion passes through them at the knots**: segment `i` at `u = 0` is
+`P_{i+1}` exactly (generic regime, `‖φ‖/6 > eps`). -/
+theorem bsplineAt_const_twist_knot (eps : ℝ) (h0 : 0 ≤ eps) (T0 : SE3 ℝ) (hT0 : SE3.Valid T0) (xi : se3 ℝ)
+    (hπ : xi.phi.norm < Real.pi) (hs : eps < Real.sin (xi.phi.norm / 2))
+    (hc : eps < Real.cos (xi.phi.norm / 2)) (i : Nat) (h6 : eps < 1 / 6 * xi.phi.norm) :
+    bsplineAt eps (fun j => SE3Mul T0 (se3Exp eps (scale xi (j : ℝ)))) i 0
+      = SE3Mul T0 (se3Exp eps (scale xi ((i + 1 : ℕ) : ℝ))) := by
+  have hn := Vec3.norm_nonneg xi.phi
+  have := bsplineAt_const_twist_closed eps h0 T0 hT0 xi (by linarith) hπ hs hc i 0 le_rfl
+    (by rw [bw_zero.1]; linarith) (by rw [bw_zero.2.1]; exact h6) (Or.inr rfl)
+  rw [this]; congr 3; push_cast; ring
+
+/-- **Pure translation motions (`φ = 0`) are reproduced exactly** — every segment, every `u`, no regime hypothesis: the case
+excluded by `eps < ‖φ‖` above. -/
+theorem bsplineAt_const_twist_translation (eps : ℝ) (h0 : 0 ≤ eps) (T0 : SE3 ℝ) (hT0 : SE3.Valid T0) (tau : Vec3 ℝ)
+    (i : Nat) (u : ℝ) :
+    bsplineAt eps (fun j => SE3Mul T0 (se3Exp eps (scale ⟨tau, Vec3.zero⟩ (j : ℝ)))) i u
+      = SE3Mul T0 (se3Exp eps (scale ⟨tau, Vec3.zero⟩ ((i : ℝ) + 1 + u))) := by
+  have hEi : SE3.Valid (se3Exp eps (scale ⟨tau, Vec3.zero⟩ (i : ℝ))) := by
+    rw [se3Exp_scale_pure eps h0]; exact SO3_valid_one
+  apply bsplineAt_const_twist eps T0 ⟨tau, Vec3.zero⟩ _ i u hT0 hEi rfl
+  · exact delta_twist_step_pure eps h0 T0 hT0 tau i
+  · exact delta_twist_step_pure eps h0 T0 hT0 tau (i + 1)
+  · exact delta_twist_step_pure eps h0 T0 hT0 tau (i + 2)
+  · exact se3Exp_add_pure eps h0 tau _ _
+  · exact se3Exp_add_pure eps h0 tau _ _
+  · rw [se3Exp_add_pure eps h0 tau]; congr 2; ring
 
 /-- the extra final pose is the `u = 1` end of the last segment -/
 theorem bsplineEnd_eq_at_one (eps : ℝ) (N : Nat) (P : Nat → SE3 ℝ) (hN : 4 ≤ N) :
@@ -630,16 +541,24 @@ theorem bspline_extrapolate_last (eps : ℝ) (heps : 0 ≤ eps) (N : Nat) (P : N
 def GenericRot (eps : ℝ) (D : SE3 ℝ) : Prop :=
   eps < D.q.vec.norm ∧ eps < |D.q.w| ∧ eps < 2 * |Real.arctan (D.q.vec.norm / D.q.w)|
 
-/-- **`Exp(Log D) ≅ D`** for the modelled functions (valid pose, generic regime) -/
-theorem exp_log_closed (eps : ℝ) (D : SE3 ℝ) (h0 : 0 ≤ eps) (hD : SE3.Valid D) (hg : GenericRot eps D) :
-    SE3Equiv (se3Exp eps (SE3Log eps D)) D := se3Exp_SE3Log eps D h0 hD hg.1 hg.2.1 hg.2.2
+/-- **`Exp(Log D) ≅ D`** for the modelled functions: valid pose, rotation in the generic regime OR exactly trivial (`q = ±1`: equal
+orientations / pure translation). NOT covered: rotation angles in `(0, ~2·eps]` (Taylor branch of `Log`: `Exp(Log D)` differs from
+`D` by `O(eps⁵)`), `|w| ≤ eps` (angle within `2·eps` of `π`). -/
+theorem exp_log_closed (eps : ℝ) (D : SE3 ℝ) (h0 : 0 ≤ eps) (hD : SE3.Valid D)
+    (hg : GenericRot eps D ∨ D.q.vec = Vec3.zero) :
+    SE3Equiv (se3Exp eps (SE3Log eps D)) D := by
+  rcases hg with hg | hv
+  · exact se3Exp_SE3Log eps D h0 hD hg.1 hg.2.1 hg.2.2
+  · exact se3Exp_SE3Log_pure eps D h0 hD hv
 
 /-- **Continuity across segments, no hypothesis about `Exp`/`Log` left**: valid control poses, the relative
-rotation `Pᵢ⁻¹Pᵢ₊₁` in the generic regime, and the next relative motion either in the closed-form branch after
-scaling by 5/6 or a pure translation / identity. -/
+rotation `Pᵢ⁻¹Pᵢ₊₁` in the generic regime or exactly trivial (consecutive poses with EQUAL orientation, repeated poses), and
+the next relative motion either in the closed-form branch after scaling by 5/6 or a pure translation / identity.
+NOT covered: relative rotation angles in `(0, ~2 eps]` or within `2 eps` of `π` (see `exp_log_closed`); there the two ends agree only
+up to `O(eps⁵)` — `bspline_continuous` states what is needed. -/
 theorem bspline_continuous_closed (eps : ℝ) (heps : 0 ≤ eps) (P : Nat → SE3 ℝ) (i : Nat)
     (h0 : SE3.Valid (P i)) (h1 : SE3.Valid (P (i + 1)))
-    (hg : GenericRot eps (SE3Mul (SE3Inv (P i)) (P (i + 1))))
+    (hg : GenericRot eps (SE3Mul (SE3Inv (P i)) (P (i + 1))) ∨ (SE3Mul (SE3Inv (P i)) (P (i + 1))).q.vec = Vec3.zero)
     (hA : eps < (scale (delta eps (P (i + 1)) (P (i + 2))) (5 / 6)).phi.norm
       ∨ (scale (delta eps (P (i + 1)) (P (i + 2))) (5 / 6)).phi = Vec3.zero) :
     SE3Equiv (bsplineAt eps P i 1) (bsplineAt eps P (i + 1) 0) := by
@@ -647,10 +566,12 @@ theorem bspline_continuous_closed (eps : ℝ) (heps : 0 ≤ eps) (P : Nat → SE
   · exact exp_log_closed eps _ heps (SE3_valid_mul _ _ (SE3_valid_inv _ h0) h1) hg
   · exact se3Exp_valid eps _ heps hA
 
-/-- **`extrapolate=True`, last pose, no hypothesis about `Exp`/`Log` left** (generic regime of the last relative rotation) -/
+/-- **`extrapolate=True`, last pose, no hypothesis about `Exp`/`Log` left**: the last relative rotation in the generic regime or
+exactly trivial (equal last two orientations, repeated last pose). Same exclusions as `exp_log_closed`. -/
 theorem bspline_extrapolate_last_closed (eps : ℝ) (heps : 0 ≤ eps) (N : Nat) (P : Nat → SE3 ℝ) (hN : 2 ≤ N)
     (h0 : SE3.Valid (P (N - 2))) (h1 : SE3.Valid (P (N - 1)))
-    (hg : GenericRot eps (SE3Mul (SE3Inv (P (N - 2))) (P (N - 1)))) :
+    (hg : GenericRot eps (SE3Mul (SE3Inv (P (N - 2))) (P (N - 1)))
+      ∨ (SE3Mul (SE3Inv (P (N - 2))) (P (N - 1))).q.vec = Vec3.zero) :
     SE3Equiv (bsplineEnd eps (N + 4) (pad N P)) (P (N - 1)) :=
   bspline_extrapolate_last eps heps N P hN h0 h1
     (exp_log_closed eps _ heps (SE3_valid_mul _ _ (SE3_valid_inv _ h0) h1) hg)
@@ -769,55 +690,28 @@ theorem stats_order (es : List ℝ) (hne : es ≠ []) :
       exact hp.mem_iff.mp (List.getElem_mem hidx)
     exact hmax_ge _ hmem
 
-/-- `SSE = n · RMSE²` and `SSE, STD ≥ 0`. -/
+/-- `SSE = n · RMSE²`, `SSE ≥ 0`, and `STD ≥ 0` for at least two errors (`torch.std` of one value is NaN). -/
 theorem stats_sse (es : List ℝ) (hne : es ≠ []) :
-    (stats es).sse = es.length * (stats es).rmse ^ 2 ∧ 0 ≤ (stats es).sse ∧ 0 ≤ (stats es).std := by
+    (stats es).sse = es.length * (stats es).rmse ^ 2 ∧ 0 ≤ (stats es).sse ∧ (2 ≤ es.length → 0 ≤ (stats es).std) := by
   have hlen : 0 < es.length := List.length_pos_of_ne_nil hne
   have hn : (0 : ℝ) < (es.length : ℝ) := by exact_mod_cast hlen
-  refine ⟨?_, sqsum_nonneg es, Real.sqrt_nonneg _⟩
+  refine ⟨?_, sqsum_nonneg es, fun _ => Real.sqrt_nonneg _⟩
   simp only [stats, sqrt_real, k_real]
   rw [Real.sq_sqrt (div_nonneg (sqsum_nonneg es) hn.le)]
   field_simp
 
-/-- **Zero statistics**: if every error is zero, all seven statistics are zero. -/
-theorem stats_zero (es : List ℝ) (h : ∀ e ∈ es, e = 0) :
-    (stats es).toList = [0, 0, 0, 0, 0, 0, 0] := by
-  have hrep : es = List.replicate es.length 0 := List.eq_replicate_iff.mpr ⟨rfl, h⟩
-  have ha : es.map sabs = List.replicate es.length 0 := by
-    rw [hrep, List.map_replicate, sabs_real, abs_zero, List.length_replicate]
-  have hsq : sqsum es = 0 := by
-    rw [sqsum_eq, hrep, List.map_replicate]; simp
-  have hsum : sumL (List.replicate es.length (0 : ℝ)) = 0 := by rw [sumL_eq_sum]; simp
-  have hmax : maxL (List.replicate es.length (0 : ℝ)) = 0 := by
-    apply le_antisymm
-    · exact maxL_le _ 0 le_rfl (fun y hy => le_of_eq (List.eq_of_mem_replicate hy))
-    · cases hl : es.length with
-      | zero => simp [maxL]
-      | succ n => exact maxL_ge _ 0 (by simp)
-  have hmin : minL (List.replicate es.length (0 : ℝ)) = 0 := by
-    apply le_antisymm
-    · cases hl : es.length with
-      | zero => simp [minL]
-      | succ n => exact minL_le _ 0 (by simp)
-    · exact minL_ge _ 0 le_rfl (fun y hy => le_of_eq (List.eq_of_mem_replicate hy).symm)
-  have hmed : (sortAsc (List.replicate es.length (0 : ℝ))).getD ((es.length - 1) / 2) (k 0) = 0 := by
-    by_cases hidx : (es.length - 1) / 2 < (sortAsc (List.replicate es.length (0 : ℝ))).length
-    · rw [List.getD_eq_getElem (hn := hidx)]
-      have := (sortAsc_perm _).mem_iff.mp (List.getElem_mem hidx)
-      exact List.eq_of_mem_replicate this
-    · rw [List.getD_eq_default _ _ (not_lt.mp hidx)]; simp
-  have hdev : sqsum ((List.replicate es.length (0 : ℝ)).map fun x => x - 0 / k es.length) = 0 := by
-    rw [List.map_replicate, sqsum_eq, List.map_replicate]; simp
-  simp only [Stats.toList, stats, ha, hsq, hsum, hdev, hmax, hmin, hmed]
-  simp
+/-- **Zero statistics**: if every error is zero, all seven statistics are zero — for at least two errors (the quantifier is
+3..200 poses; `STD` of a single error is `0/0 = NaN` in the code and is not claimed). -/
+theorem stats_zero (es : List ℝ) (h : ∀ e ∈ es, e = 0) (_hn : 2 ≤ es.length) :
+    (stats es).toList = [0, 0, 0, 0, 0, 0, 0] := stats_zero_raw es h
 
-/-- **Option handling** (pass 3): `align`/`scale` take precedence over `origin`; `scale` alone already aligns (with scale);
-`with_scale` is exactly the `scale` flag. -/
-theorem modeOfFlags_spec (align scale origin : Bool) :
-    ((align = true ∨ scale = true) → modeOfFlags align scale origin = (.svd, scale)) ∧
-    (align = false → scale = false → origin = true → modeOfFlags align scale origin = (.origin, false)) ∧
-    (align = false → scale = false → origin = false → modeOfFlags align scale origin = (.none, false)) := by
-  cases align <;> cases scale <;> cases origin <;> simp [modeOfFlags]
+/-- the six statistics other than `STD` are zero for any number of zero errors (also a single one) -/
+theorem stats_zero_six (es : List ℝ) (h : ∀ e ∈ es, e = 0) :
+    (stats es).max = 0 ∧ (stats es).min = 0 ∧ (stats es).mean = 0 ∧ (stats es).median = 0 ∧ (stats es).rmse = 0
+      ∧ (stats es).sse = 0 := by
+  have := stats_zero_raw es h
+  simp only [Stats.toList, List.cons.injEq, and_true] at this
+  exact ⟨this.1, this.2.1, this.2.2.1, this.2.2.2.1, this.2.2.2.2.1, this.2.2.2.2.2.1⟩
 
 /-! ## association -/
 
@@ -938,10 +832,9 @@ theorem associate_map (diff off : ℝ) (rs es : List ℝ) (rp ep : List (SE3 ℝ
 
 /-! ## identical trajectories -/
 
-/-- **APE of identical trajectories is zero** (after association): every error type, and every way of aligning —
-none, first pose, or an `svdstf` that returns the identity transformation on identical point sets (which its
-contract forces: `alignOK_identity`). -/
-theorem apeCore_identical_zero (eps atol : ℝ) (heps : 0 ≤ eps) (hatol : atol ≤ 1)
+/-- general form used below (all modes; for `svd` it needs the transform returned on identical point sets to be the identity as
+a transformation) -/
+theorem apeCore_identical_zero_of (eps atol : ℝ) (heps : 0 ≤ eps) (hatol : atol ≤ 1)
     (alignFn : List (Vec3 ℝ) → List (Vec3 ℝ) → Sim3 ℝ) (et : EType) (mode : AlignMode) (rp : List (SE3 ℝ))
     (hv : ∀ r ∈ rp, SE3.Valid r)
     (hsvd : mode = .svd → Sim3Equiv (alignFn (rp.map (·.t)) (rp.map (·.t))) Sim3one) :
@@ -966,8 +859,47 @@ theorem apeCore_identical_zero (eps atol : ℝ) (heps : 0 ≤ eps) (hatol : atol
   rw [apeErr_congr eps atol et r h1]
   exact apeErr_self eps atol heps hatol et r (hv r hr)
 
-/-- the `svdstf` contract forces the identity (as a transformation) on identical point sets -/
-theorem alignOK_identity (rigid : Bool) (A : Sim3 ℝ) (P : List (Vec3 ℝ)) (h : AlignOK rigid A P P) :
+/-- **APE of identical trajectories is zero** (after association), every error type, without alignment or with `origin`:
+full strength, all lengths. -/
+theorem apeCore_identical_zero (eps atol : ℝ) (heps : 0 ≤ eps) (hatol : atol ≤ 1)
+    (alignFn : List (Vec3 ℝ) → List (Vec3 ℝ) → Sim3 ℝ) (et : EType) (mode : AlignMode) (hmode : mode ≠ .svd)
+    (rp : List (SE3 ℝ)) (hv : ∀ r ∈ rp, SE3.Valid r) :
+    ∀ e ∈ apeCore eps atol alignFn et mode rp rp, e = 0 :=
+  apeCore_identical_zero_of eps atol heps hatol alignFn et mode rp hv (fun h => absurd h hmode)
+
+/-- **PARTIAL — `svdstf` alignment, guard: positions NOT collinear.** With `align`/`scale` the errors of identical trajectories
+are zero if the transform returned on identical point sets is the identity as a transformation. The `svdstf` contract forces that
+(`alignOK_identity_partial`) — but the contract is unsatisfiable when the positions are collinear (`alignOK_collinear_false`), and
+there the real code returns non-zero rotation errors (known finding D43); only the translation-type clause survives
+(`apeCore_identical_zero_translation`). -/
+theorem apeCore_identical_zero_svd_partial (eps atol : ℝ) (heps : 0 ≤ eps) (hatol : atol ≤ 1)
+    (alignFn : List (Vec3 ℝ) → List (Vec3 ℝ) → Sim3 ℝ) (et : EType) (rp : List (SE3 ℝ)) (hv : ∀ r ∈ rp, SE3.Valid r)
+    (hsvd : Sim3Equiv (alignFn (rp.map (·.t)) (rp.map (·.t))) Sim3one) :
+    ∀ e ∈ apeCore eps atol alignFn et .svd rp rp, e = 0 :=
+  apeCore_identical_zero_of eps atol heps hatol alignFn et .svd rp hv (fun _ => hsvd)
+
+/-- **Translation errors of identical trajectories are zero under ANY optimal `svdstf`** — also on collinear positions (where
+the optimum is not unique): optimality alone (`cost ≤ cost of the identity = 0`) pins the aligned positions. -/
+theorem apeCore_identical_zero_translation (eps atol : ℝ) (alignFn : List (Vec3 ℝ) → List (Vec3 ℝ) → Sim3 ℝ)
+    (rp : List (SE3 ℝ))
+    (hopt : cost (alignFn (rp.map (·.t)) (rp.map (·.t))) (rp.map (·.t)) (rp.map (·.t)) ≤ 0) :
+    ∀ e ∈ apeCore eps atol alignFn .translation .svd rp rp, e = 0 := by
+  unfold apeCore
+  simp only [transOf]
+  set T := alignFn (rp.map (·.t)) (rp.map (·.t)) with hT
+  apply zipWith_self_zero
+  intro r hr
+  have hz : ((Sim3Act T r.t).sub r.t).normSq = 0 := by
+    have hc : cost T (rp.map (·.t)) (rp.map (·.t)) = 0 := le_antisymm hopt (cost_nonneg _ _ _)
+    exact cost_zero_mem T (rp.map (·.t)) hc r.t (List.mem_map.mpr ⟨r, hr, rfl⟩)
+  unfold apeErr errMat
+  simp only []
+  have : (alignPose T r).t.sub r.t = Vec3.zero := normSq_eq_zero _ hz
+  rw [this, Spline.Vec3.norm_zero']
+
+/-- **PARTIAL — guard: positions NOT collinear.** On identical point sets the `svdstf` contract forces the identity (as a
+transformation); for collinear positions the hypothesis cannot hold (`alignOK_collinear_false`). -/
+theorem alignOK_identity_partial (rigid : Bool) (A : Sim3 ℝ) (P : List (Vec3 ℝ)) (h : AlignOK rigid A P P) :
     Sim3Equiv A Sim3one := by
   have h1 : Sim3.Valid (Sim3one : Sim3 ℝ) := ⟨SO3_valid_one, by simp [Sim3one]⟩
   have := h.unique Sim3one h1 (fun _ => by simp [Sim3one]) (by rw [cost_self_one]; exact cost_nonneg _ _ _)
@@ -977,15 +909,52 @@ theorem alignOK_identity (rigid : Bool) (A : Sim3 ℝ) (P : List (Vec3 ℝ)) (h 
   · exact Or.inl c.symm
   · right; rw [c, Spline.Quat.neg_neg']
 
-/-- **`ape` of a trajectory with itself returns zero statistics** — from the raw inputs: any number of poses with
-pairwise distinct stamps, any positive `diff`, zero offset, any error type, alignment none / origin / svd. -/
+/-- **The `svdstf` contract is unsatisfiable on collinear source positions** (straight-line motion, two distinct positions, all
+positions equal): every theorem below that takes `AlignOK` as hypothesis is silent there — which is exactly where the real code
+violates the rotation-type clauses (known finding D43). -/
+theorem alignOK_collinear_false (rigid : Bool) (A : Sim3 ℝ) (P Q : List (Vec3 ℝ)) (hc : Collinear P) :
+    ¬ AlignOK rigid A P Q := fun h => alignOK_collinear_false' rigid A P Q hc h
+
+/-- **`svdstf`'s freedom on collinear positions** (the witness behind D43): for source points on the line `c + λu`, composing
+ANY valid transform `T` — in particular an optimal one — with the rotation by ANY angle about that line gives the same cost, and
+for a half turn a genuinely different transformation: the optimum is never unique. -/
+theorem collinear_optimum_not_unique (T : Sim3 ℝ) (hT : Sim3.Valid T) (c u : Vec3 ℝ) (hu : u.normSq = 1)
+    (P Q : List (Vec3 ℝ)) (hP : ∀ p ∈ P, ∃ lam : ℝ, p = c.add (u.smul lam)) :
+    (∀ sn cs : ℝ, sn * sn + cs * cs = 1 → cost (Sim3Mul T (lineRot c u sn cs)) P Q = cost T P Q) ∧
+    ¬ Sim3Equiv (Sim3Mul T (lineRot c u 1 0)) T := by
+  refine ⟨fun sn cs h => collinear_cost_invariant T hT c u sn cs hu h P Q hP, ?_⟩
+  intro heq
+  obtain ⟨_, _, hq⟩ := heq
+  have hTq : T.q.normSq = 1 := hT.1
+  have key : ∀ r : Quat ℝ, T.q.mul (Spline.axisQuat u 1 0) = r → (Spline.axisQuat u 1 0) = T.q.conj.mul r := by
+    intro r hr
+    rw [← hr, ← Quat.mul_assoc', Quat.conj_mul, hTq]
+    ext <;> lie_unfold <;> ring
+  have hw : (Spline.axisQuat u 1 0).w = 0 := rfl
+  rcases hq with hq | hq
+  · have := key _ hq
+    rw [Quat.conj_mul, hTq] at this
+    have := congrArg Quat.w this
+    rw [hw] at this; norm_num at this
+  · have := key _ hq
+    have e : T.q.conj.mul T.q.neg = (T.q.conj.mul T.q).neg := Spline.Quat.mul_neg' _ _
+    rw [e, Quat.conj_mul, hTq] at this
+    have := congrArg Quat.w this
+    rw [hw] at this; simp [Quat.neg] at this
+
+theorem apeCore_length_self (eps atol : ℝ) (alignFn : List (Vec3 ℝ) → List (Vec3 ℝ) → Sim3 ℝ) (et : EType) (mode : AlignMode)
+    (rp : List (SE3 ℝ)) : (apeCore eps atol alignFn et mode rp rp).length = rp.length := by
+  unfold apeCore; simp
+
+/-- **`ape` of a trajectory with itself returns zero statistics** — from the raw inputs: at least two poses (the quantifier is
+3..200) with pairwise distinct stamps, any positive `diff`, zero offset, any error type, no alignment or `origin`. -/
 theorem ape_identical_zero (eps atol : ℝ) (heps : 0 ≤ eps) (hatol : atol ≤ 1)
-    (alignFn : List (Vec3 ℝ) → List (Vec3 ℝ) → Sim3 ℝ) (et : EType) (mode : AlignMode) (diff : ℝ) (hdiff : 0 < diff)
-    (rs : List ℝ) (rp : List (SE3 ℝ)) (hlen : rp.length = rs.length) (hne : rs ≠ [])
+    (alignFn : List (Vec3 ℝ) → List (Vec3 ℝ) → Sim3 ℝ) (et : EType) (mode : AlignMode) (hmode : mode ≠ .svd)
+    (diff : ℝ) (hdiff : 0 < diff) (rs : List ℝ) (rp : List (SE3 ℝ)) (hlen : rp.length = rs.length) (hn : 2 ≤ rs.length)
     (hdist : ∀ (i : Nat) (hi : i < rs.length) (k : Nat) (hk : k < rs.length), k ≠ i → rs[i] ≠ rs[k])
-    (hv : ∀ r ∈ rp, SE3.Valid r)
-    (hsvd : mode = .svd → Sim3Equiv (alignFn (rp.map (·.t)) (rp.map (·.t))) Sim3one) :
+    (hv : ∀ r ∈ rp, SE3.Valid r) :
     (ape eps atol alignFn et diff 0 mode rs rp rs rp).map Stats.toList = some [0, 0, 0, 0, 0, 0, 0] := by
+  have hne : rs ≠ [] := by intro h; rw [h] at hn; simp at hn
   have ha : associate diff 0 rs rp rs rp = some ⟨rs, rp, rs, rp⟩ := by
     apply associate_jitter diff 0 rs rs rp rp rfl hlen hlen hne
     · intro i hi; simpa using hdiff
@@ -995,15 +964,42 @@ theorem ape_identical_zero (eps atol : ℝ) (heps : 0 ≤ eps) (hatol : atol ≤
   unfold ape apeErrors
   rw [ha]
   simp only [Option.map_some]
-  rw [stats_zero _ (apeCore_identical_zero eps atol heps hatol alignFn et mode rp hv hsvd)]
+  rw [stats_zero _ (apeCore_identical_zero eps atol heps hatol alignFn et mode hmode rp hv)
+    (by rw [apeCore_length_self, hlen]; exact hn)]
+
+/-- **PARTIAL — `svdstf` alignment, guard: positions NOT collinear** (raw-input form of `apeCore_identical_zero_svd_partial`). -/
+theorem ape_identical_zero_svd_partial (eps atol : ℝ) (heps : 0 ≤ eps) (hatol : atol ≤ 1)
+    (alignFn : List (Vec3 ℝ) → List (Vec3 ℝ) → Sim3 ℝ) (et : EType) (diff : ℝ) (hdiff : 0 < diff)
+    (rs : List ℝ) (rp : List (SE3 ℝ)) (hlen : rp.length = rs.length) (hn : 2 ≤ rs.length)
+    (hdist : ∀ (i : Nat) (hi : i < rs.length) (k : Nat) (hk : k < rs.length), k ≠ i → rs[i] ≠ rs[k])
+    (hv : ∀ r ∈ rp, SE3.Valid r)
+    (hsvd : Sim3Equiv (alignFn (rp.map (·.t)) (rp.map (·.t))) Sim3one) :
+    (ape eps atol alignFn et diff 0 .svd rs rp rs rp).map Stats.toList = some [0, 0, 0, 0, 0, 0, 0] := by
+  have hne : rs ≠ [] := by intro h; rw [h] at hn; simp at hn
+  have ha : associate diff 0 rs rp rs rp = some ⟨rs, rp, rs, rp⟩ := by
+    apply associate_jitter diff 0 rs rs rp rp rfl hlen hlen hne
+    · intro i hi; simpa using hdiff
+    · intro i hi k hk hki
+      have : rs[i] - rs[k] ≠ 0 := sub_ne_zero.mpr (hdist i hi k hk hki)
+      simpa using this
+  unfold ape apeErrors
+  rw [ha]
+  simp only [Option.map_some]
+  rw [stats_zero _ (apeCore_identical_zero_svd_partial eps atol heps hatol alignFn et rp hv hsvd)
+    (by rw [apeCore_length_self, hlen]; exact hn)]
 
 /-! ## alignment invariance of APE -/
 
 /-- **APE with `align` (and `scale`) is unchanged by a rigid (similarity) transform of the estimate.**
 `rigid = true` is `align=True, scale=False` (then `S` must have unit scale), `rigid = false` is `scale=True`.
 Hypotheses: the `svdstf` contract (C17: optimal and unique as a transformation) at the two point sets on which
-it is called. Conclusion: the per-pose error lists are *equal*, hence every statistic. All lengths, all error types. -/
-theorem apeCore_align_invariant (eps atol : ℝ) (alignFn : List (Vec3 ℝ) → List (Vec3 ℝ) → Sim3 ℝ) (et : EType)
+it is called. Conclusion: the per-pose error lists are *equal*, hence every statistic. All lengths, all error types.
+
+PARTIAL — guard: **the matched estimate positions are NOT collinear** (at least three poses, not on one line, in particular not all
+equal and not just two distinct points). On collinear positions the hypotheses `h1`/`h2` are unsatisfiable for every `alignFn`
+(`alignOK_collinear_false`), the optimum is a one-parameter family (`collinear_optimum_not_unique`), and the statement is
+really false for the rotation-bearing error types of the code (known finding D43). -/
+theorem apeCore_align_invariant_partial (eps atol : ℝ) (alignFn : List (Vec3 ℝ) → List (Vec3 ℝ) → Sim3 ℝ) (et : EType)
     (rigid : Bool) (S : Sim3 ℝ) (rp ep : List (SE3 ℝ)) (hS : Sim3.Valid S) (hSr : rigid = true → S.s = 1)
     (h1 : AlignOK rigid (alignFn (ep.map (·.t)) (rp.map (·.t))) (ep.map (·.t)) (rp.map (·.t)))
     (h2 : AlignOK rigid (alignFn ((ep.map (·.t)).map (Sim3Act S)) (rp.map (·.t)))
@@ -1080,8 +1076,11 @@ theorem ape_origin_invariant (eps atol : ℝ) (alignFn : List (Vec3 ℝ) → Lis
       (fun p hp => hR p (mem_pick _ _ p (hrp ▸ hp))) (fun p hp => hE p (mem_pick _ _ p (hep ▸ hp)))]
 
 /-- **`ape(align[, scale])` is unchanged by a rigid (similarity) transform of the estimate** — from the raw inputs.
-The `svdstf` contract is required at the two point sets on which `ape` calls it (the associated translations). -/
-theorem ape_align_invariant (eps atol : ℝ) (alignFn : List (Vec3 ℝ) → List (Vec3 ℝ) → Sim3 ℝ) (et : EType)
+The `svdstf` contract is required at the two point sets on which `ape` calls it (the associated translations).
+
+PARTIAL — guard: **the positions of the matched estimate poses are NOT collinear**; otherwise `hc` cannot hold
+(`alignOK_collinear_false`) and the code's rotation-type errors do change (D43). -/
+theorem ape_align_invariant_partial (eps atol : ℝ) (alignFn : List (Vec3 ℝ) → List (Vec3 ℝ) → Sim3 ℝ) (et : EType)
     (diff off : ℝ) (rigid : Bool) (S : Sim3 ℝ) (hS : Sim3.Valid S) (hSr : rigid = true → S.s = 1)
     (rs es : List ℝ) (rp ep : List (SE3 ℝ))
     (hc : ∀ a, associate diff off rs rp es ep = some a →
@@ -1099,12 +1098,16 @@ theorem ape_align_invariant (eps atol : ℝ) (alignFn : List (Vec3 ℝ) → List
   | some a =>
     simp only [Option.map_some]
     obtain ⟨h1, h2⟩ := hc a h
-    rw [apeCore_align_invariant eps atol alignFn et rigid S a.rp a.ep hS hSr h1 h2]
+    rw [apeCore_align_invariant_partial eps atol alignFn et rigid S a.rp a.ep hS hSr h1 h2]
 
 /-- **APE is unchanged when BOTH trajectories are moved by the same rigid motion — for every alignment mode** (pass 3):
 none, `origin`, and `svdstf` (rigid or with scale; hypothesis: the C17 contract at the original and at the moved point
-sets). The per-pose error lists are equal; all lengths, all error types. -/
-theorem apeCore_common_left_invariant (eps atol : ℝ) (alignFn : List (Vec3 ℝ) → List (Vec3 ℝ) → Sim3 ℝ) (et : EType)
+sets). The per-pose error lists are equal; all lengths, all error types.
+
+PARTIAL for `mode = svd` — guard: **the estimate positions are NOT collinear** (else `hsvd` is unsatisfiable,
+`alignOK_collinear_false`, and the code's rotation-type errors do change: D43). For `none` and `origin` there is no guard:
+`apeCore_common_left_invariant`. -/
+theorem apeCore_common_left_invariant_partial (eps atol : ℝ) (alignFn : List (Vec3 ℝ) → List (Vec3 ℝ) → Sim3 ℝ) (et : EType)
     (mode : AlignMode) (G : SE3 ℝ) (hG : SE3.Valid G) (rp ep : List (SE3 ℝ)) (hR : ∀ r ∈ rp, SE3.Valid r)
     (hE : ∀ e ∈ ep, SE3.Valid e)
     (hsvd : mode = .svd → ∃ rigid : Bool,
@@ -1157,6 +1160,14 @@ theorem apeCore_common_left_invariant (eps atol : ℝ) (alignFn : List (Vec3 ℝ
     refine (alignPose_congr hconj (SE3Mul G e)).trans (Spline.SE3Equiv.of_eq ?_)
     rw [e1, alignPose_mul _ _ e (Sim3_valid_mul _ _ (Sim3_valid_mul _ _ hGs h1.valid) (Sim3_valid_inv _ hGs)) hGs,
       Sim3_mul_assoc _ _ _ (Sim3_valid_mul _ _ hGs h1.valid) (Sim3_valid_inv _ hGs), Sim3_inv_mul _ hGs, Sim3_mul_one]
+
+/-- **APE without alignment or with `origin` is unchanged when both trajectories are moved by the same rigid motion** — no
+hypothesis on the positions (collinear, all equal, one pose: all fine). -/
+theorem apeCore_common_left_invariant (eps atol : ℝ) (alignFn : List (Vec3 ℝ) → List (Vec3 ℝ) → Sim3 ℝ) (et : EType)
+    (mode : AlignMode) (hmode : mode ≠ .svd) (G : SE3 ℝ) (hG : SE3.Valid G) (rp ep : List (SE3 ℝ))
+    (hR : ∀ r ∈ rp, SE3.Valid r) (hE : ∀ e ∈ ep, SE3.Valid e) :
+    apeCore eps atol alignFn et mode (rp.map (SE3Mul G)) (ep.map (SE3Mul G)) = apeCore eps atol alignFn et mode rp ep :=
+  apeCore_common_left_invariant_partial eps atol alignFn et mode G hG rp ep hR hE (fun h => absurd h hmode)
 
 /-! ## RPE: invariance under left multiplication, zero for identical trajectories -/
 
@@ -1233,73 +1244,135 @@ theorem rpe_left_invariant (eps atol : ℝ) (alignFn : List (Vec3 ℝ) → List 
     rw [rpeCore_left_invariant eps atol alignFn et pm dN delta rtol all rpair G H hG hH a.rp a.ep
       (fun p hp => hR p (mem_pick _ _ p (hrp ▸ hp))) (fun p hp => hE p (mem_pick _ _ p (hep ▸ hp)))]
 
-/-- **RPE of identical trajectories is zero**: every error type, every pairing, no alignment or `origin`. -/
+/-- **Alignment by a unit-scale transform has no effect on RPE at all**: relative poses `(T e_s)⁻¹ (T e_t) = e_s⁻¹ e_t`, and the
+pairing only sees distances. Holds for `origin`, and for `svdstf` whenever the returned transform is valid with scale 1 (always for
+`align` without `scale`) — no uniqueness needed, so also on collinear positions (RPE is not affected by finding D43). -/
+theorem rpeCore_unit_scale_alignment (eps atol : ℝ) (alignFn : List (Vec3 ℝ) → List (Vec3 ℝ) → Sim3 ℝ) (et : EType)
+    (mode : AlignMode) (pm : PairMode) (dN : Nat) (delta rtol : ℝ) (all rpair : Bool) (rp ep : List (SE3 ℝ))
+    (hR : ∀ p ∈ rp, SE3.Valid p) (hE : ∀ p ∈ ep, SE3.Valid p)
+    (hT : Sim3.Valid (transOf alignFn mode rp ep)) (hs : (transOf alignFn mode rp ep).s = 1) :
+    rpeCore eps atol alignFn et mode pm dN delta rtol all rpair rp ep
+      = rpeCore eps atol alignFn et .none pm dN delta rtol all rpair rp ep := by
+  rw [rpeCore_eq_tail, rpeCore_eq_tail]
+  set T := transOf alignFn mode rp ep with hTdef
+  have hG : SE3.Valid (⟨T.t, T.q⟩ : SE3 ℝ) := hT.1
+  have hTe : T = ⟨T.t, T.q, 1⟩ := by
+    cases hT' : T with
+    | mk t q sc => rw [hT'] at hs; simp only at hs; rw [hs]
+  have hmap : ep.map (alignPose T) = ep.map (SE3Mul ⟨T.t, T.q⟩) := by
+    apply List.map_congr_left
+    intro e _
+    rw [hTe]; exact alignPose_rigid ⟨T.t, T.q⟩ e
+  have hone : rp = rp.map (SE3Mul SE3one) := by
+    conv_lhs => rw [← List.map_id rp]
+    exact List.map_congr_left (fun r _ => (SE3_one_mul r).symm)
+  simp only [transOf, map_alignPose_one]
+  rw [hmap]
+  conv_lhs => rw [hone]
+  exact rpeTail_left eps atol et pm dN delta rtol all rpair SE3one ⟨T.t, T.q⟩ Spline.SE3_valid_one hG rp ep hR hE
+
+theorem transOf_origin_valid (alignFn : List (Vec3 ℝ) → List (Vec3 ℝ) → Sim3 ℝ) (rp ep : List (SE3 ℝ))
+    (hR : ∀ p ∈ rp, SE3.Valid p) (hE : ∀ p ∈ ep, SE3.Valid p) :
+    Sim3.Valid (transOf alignFn .origin rp ep) ∧ (transOf alignFn .origin rp ep).s = 1 := by
+  have hr : SE3.Valid (rp.headD SE3one) := by
+    cases rp with
+    | nil => exact Spline.SE3_valid_one
+    | cons r _ => exact hR r (by simp)
+  have he : SE3.Valid (ep.headD SE3one) := by
+    cases ep with
+    | nil => exact Spline.SE3_valid_one
+    | cons e _ => exact hE e (by simp)
+  simp only [transOf, originT]
+  exact ⟨⟨SE3_valid_mul _ _ hr (SE3_valid_inv _ he), by simp⟩, by simp⟩
+
+/-- **RPE of identical trajectories is zero** — every error type, every pairing, every alignment mode whose transform is valid
+with unit scale (none, `origin`, rigid `svdstf`; no uniqueness hypothesis): all errors vanish, and all seven statistics for at
+least two pairs. -/
+theorem rpeCore_identical_zero_of_unit (eps atol : ℝ) (heps : 0 ≤ eps) (hatol : atol ≤ 1)
+    (alignFn : List (Vec3 ℝ) → List (Vec3 ℝ) → Sim3 ℝ) (et : EType) (mode : AlignMode)
+    (pm : PairMode) (dN : Nat) (delta rtol : ℝ) (all rpair : Bool) (rp : List (SE3 ℝ))
+    (hv : ∀ r ∈ rp, SE3.Valid r)
+    (hT : Sim3.Valid (transOf alignFn mode rp rp)) (hs : (transOf alignFn mode rp rp).s = 1) (errs : List ℝ)
+    (h : rpeCore eps atol alignFn et mode pm dN delta rtol all rpair rp rp = some errs) :
+    (∀ e ∈ errs, e = 0) ∧ (2 ≤ errs.length → (stats errs).toList = [0, 0, 0, 0, 0, 0, 0]) := by
+  rw [rpeCore_unit_scale_alignment eps atol alignFn et mode pm dN delta rtol all rpair rp rp hv hv hT hs,
+    rpeCore_eq_tail] at h
+  simp only [transOf, map_alignPose_one] at h
+  unfold rpeTail at h
+  simp only [ite_self] at h
+  split_ifs at h
+  simp only [Option.some.injEq] at h
+  have hz : ∀ e ∈ errs, e = 0 := by
+    intro e he
+    rw [← h] at he
+    rw [List.zipWith_self] at he
+    obtain ⟨x, hx, rfl⟩ := List.mem_map.mp he
+    apply rpeErr_self eps atol heps hatol et x
+    unfold relPoses at hx
+    obtain ⟨st, _, hst⟩ := List.mem_filterMap.mp hx
+    cases h1 : rp[st.1]? with
+    | none => simp [h1] at hst
+    | some a =>
+      cases h2 : rp[st.2]? with
+      | none => simp [h1, h2] at hst
+      | some b =>
+        simp only [h1, h2, Option.some.injEq] at hst
+        rw [← hst]
+        exact SE3_valid_mul _ _ (SE3_valid_inv _ (hv a (List.mem_of_getElem? h1))) (hv b (List.mem_of_getElem? h2))
+  exact ⟨hz, fun hn => stats_zero errs hz hn⟩
+
+/-- no alignment or `origin`: no hypothesis about the transform needed -/
 theorem rpeCore_identical_zero (eps atol : ℝ) (heps : 0 ≤ eps) (hatol : atol ≤ 1)
     (alignFn : List (Vec3 ℝ) → List (Vec3 ℝ) → Sim3 ℝ) (et : EType) (mode : AlignMode) (hmode : mode ≠ .svd)
     (pm : PairMode) (dN : Nat) (delta rtol : ℝ) (all rpair : Bool) (rp : List (SE3 ℝ))
     (hv : ∀ r ∈ rp, SE3.Valid r) (errs : List ℝ)
     (h : rpeCore eps atol alignFn et mode pm dN delta rtol all rpair rp rp = some errs) :
-    (stats errs).toList = [0, 0, 0, 0, 0, 0, 0] := by
-  apply stats_zero
-  have hT : transOf alignFn mode rp rp = Sim3one := by
+    (∀ e ∈ errs, e = 0) ∧ (2 ≤ errs.length → (stats errs).toList = [0, 0, 0, 0, 0, 0, 0]) := by
+  have hT : Sim3.Valid (transOf alignFn mode rp rp) ∧ (transOf alignFn mode rp rp).s = 1 := by
     cases mode with
-    | none => rfl
-    | origin =>
-      unfold transOf originT
-      cases rp with
-      | nil =>
-        simp only [List.headD_nil]
-        rw [SE3_mul_inv SE3one Spline.SE3_valid_one]; simp [Sim3one, SE3one]
-      | cons r0 rest =>
-        simp only [List.headD_cons]
-        rw [SE3_mul_inv r0 (hv r0 (by simp))]; simp [Sim3one, SE3one]
+    | none => exact ⟨⟨SO3_valid_one, by simp [transOf, Sim3one]⟩, by simp [transOf, Sim3one]⟩
+    | origin => exact transOf_origin_valid alignFn rp rp hv hv
     | svd => exact absurd rfl hmode
-  rw [rpeCore_eq_tail, hT, map_alignPose_one] at h
-  unfold rpeTail at h
-  simp only [ite_self] at h
-  split_ifs at h
-  simp only [Option.some.injEq] at h
-  intro e he
-  rw [← h] at he
-  rw [List.zipWith_self] at he
-  obtain ⟨x, hx, rfl⟩ := List.mem_map.mp he
-  apply rpeErr_self eps atol heps hatol et x
-  unfold relPoses at hx
-  obtain ⟨st, _, hst⟩ := List.mem_filterMap.mp hx
-  cases h1 : rp[st.1]? with
-  | none => simp [h1] at hst
-  | some a =>
-    cases h2 : rp[st.2]? with
-    | none => simp [h1, h2] at hst
-    | some b =>
-      simp only [h1, h2, Option.some.injEq] at hst
-      rw [← hst]
-      exact SE3_valid_mul _ _ (SE3_valid_inv _ (hv a (List.mem_of_getElem? h1))) (hv b (List.mem_of_getElem? h2))
+  exact rpeCore_identical_zero_of_unit eps atol heps hatol alignFn et mode pm dN delta rtol all rpair rp hv hT.1 hT.2 errs h
 
-/-- **RPE of identical trajectories is zero for `svdstf` alignment too** (pass 3; completes `rpeCore_identical_zero`):
-whenever the alignment returned for identical point sets is the identity as a transformation (forced by the contract,
-`alignOK_identity`), every error type, every pairing. -/
-theorem rpeCore_identical_zero_svd (eps atol : ℝ) (heps : 0 ≤ eps) (hatol : atol ≤ 1)
-    (alignFn : List (Vec3 ℝ) → List (Vec3 ℝ) → Sim3 ℝ) (et : EType) (pm : PairMode) (dN : Nat) (delta rtol : ℝ)
-    (all rpair : Bool) (rp : List (SE3 ℝ)) (hv : ∀ r ∈ rp, SE3.Valid r)
-    (hsvd : Sim3Equiv (alignFn (rp.map (·.t)) (rp.map (·.t))) Sim3one) (errs : List ℝ)
-    (h : rpeCore eps atol alignFn et .svd pm dN delta rtol all rpair rp rp = some errs) :
-    (stats errs).toList = [0, 0, 0, 0, 0, 0, 0] := by
-  apply stats_zero
-  rw [rpeCore_eq_tail] at h
-  unfold rpeTail at h
-  simp only [] at h
-  have hf : ∀ r ∈ rp, Spline.SE3Equiv (alignPose (transOf alignFn .svd rp rp) r) r := by
-    intro r _
-    have := alignPose_congr hsvd r
-    rw [alignPose_one] at this
-    exact this
-  split_ifs at h
-  all_goals
-    simp only [Option.some.injEq] at h
-    intro e he
-    rw [← h] at he
-    exact relPoses_zero eps atol heps hatol et rp hv _ hf _ e he
+/-- **`rpe` of a trajectory with itself, from the raw inputs** (pairwise distinct stamps, `diff > 0`, no alignment or `origin`):
+whenever it returns at all, every relative error is zero. -/
+theorem rpe_identical_zero (eps atol : ℝ) (heps : 0 ≤ eps) (hatol : atol ≤ 1)
+    (alignFn : List (Vec3 ℝ) → List (Vec3 ℝ) → Sim3 ℝ) (et : EType) (mode : AlignMode) (hmode : mode ≠ .svd)
+    (diff : ℝ) (hdiff : 0 < diff) (pm : PairMode) (dN : Nat) (delta rtol : ℝ) (all rpair : Bool)
+    (rs : List ℝ) (rp : List (SE3 ℝ)) (hlen : rp.length = rs.length) (hne : rs ≠ [])
+    (hdist : ∀ (i : Nat) (hi : i < rs.length) (k : Nat) (hk : k < rs.length), k ≠ i → rs[i] ≠ rs[k])
+    (hv : ∀ r ∈ rp, SE3.Valid r) (errs : List ℝ)
+    (h : rpeErrors eps atol alignFn et diff 0 mode pm dN delta rtol all rpair rs rp rs rp = some errs) :
+    (∀ e ∈ errs, e = 0) ∧ (2 ≤ errs.length → (stats errs).toList = [0, 0, 0, 0, 0, 0, 0]) := by
+  have ha : associate diff 0 rs rp rs rp = some ⟨rs, rp, rs, rp⟩ := by
+    apply associate_jitter diff 0 rs rs rp rp rfl hlen hlen hne
+    · intro i hi; simpa using hdiff
+    · intro i hi k hk hki
+      have : rs[i] - rs[k] ≠ 0 := sub_ne_zero.mpr (hdist i hi k hk hki)
+      simpa using this
+  unfold rpeErrors at h
+  rw [ha] at h
+  simp only [Option.bind_some] at h
+  exact rpeCore_identical_zero eps atol heps hatol alignFn et mode hmode pm dN delta rtol all rpair rp hv errs h
+
+/-- **RPE with rigid `svdstf` alignment is unchanged when either trajectory (or both) is left-multiplied by a fixed pose** — for
+ANY `svdstf` that returns valid unit-scale transforms on the two inputs (no optimality / uniqueness needed). -/
+theorem rpeCore_left_invariant_svd (eps atol : ℝ) (alignFn : List (Vec3 ℝ) → List (Vec3 ℝ) → Sim3 ℝ) (et : EType)
+    (pm : PairMode) (dN : Nat) (delta rtol : ℝ) (all rpair : Bool) (G H : SE3 ℝ) (hG : SE3.Valid G)
+    (hH : SE3.Valid H) (rp ep : List (SE3 ℝ)) (hR : ∀ p ∈ rp, SE3.Valid p) (hE : ∀ p ∈ ep, SE3.Valid p)
+    (hT : Sim3.Valid (transOf alignFn .svd rp ep)) (hs : (transOf alignFn .svd rp ep).s = 1)
+    (hT' : Sim3.Valid (transOf alignFn .svd (rp.map (SE3Mul G)) (ep.map (SE3Mul H))))
+    (hs' : (transOf alignFn .svd (rp.map (SE3Mul G)) (ep.map (SE3Mul H))).s = 1) :
+    rpeCore eps atol alignFn et .svd pm dN delta rtol all rpair (rp.map (SE3Mul G)) (ep.map (SE3Mul H))
+      = rpeCore eps atol alignFn et .svd pm dN delta rtol all rpair rp ep := by
+  have hR' : ∀ p ∈ rp.map (SE3Mul G), SE3.Valid p := by
+    intro p hp; obtain ⟨r, hr, rfl⟩ := List.mem_map.mp hp; exact SE3_valid_mul _ _ hG (hR r hr)
+  have hE' : ∀ p ∈ ep.map (SE3Mul H), SE3.Valid p := by
+    intro p hp; obtain ⟨e, he, rfl⟩ := List.mem_map.mp hp; exact SE3_valid_mul _ _ hH (hE e he)
+  rw [rpeCore_unit_scale_alignment eps atol alignFn et .svd pm dN delta rtol all rpair _ _ hR' hE' hT' hs',
+    rpeCore_unit_scale_alignment eps atol alignFn et .svd pm dN delta rtol all rpair rp ep hR hE hT hs]
+  exact rpeCore_left_invariant eps atol alignFn et pm dN delta rtol all rpair G H hG hH rp ep hR hE
 
 /-! ## geodesic loss -/
 
@@ -1327,10 +1400,6 @@ theorem geodesic_is_angle (eps : ℝ) (h0 : 0 ≤ eps) (x y : Quat ℝ) (hx : SO
   rw [cos_SO3Log_norm eps _ h0 hq hv hw, ← SO3_matrix_conj, ← SO3_matrix_mul x y.conj hx (SO3_valid_inv y hy),
     trace_SO3matrix _ hq]
   ring
-
-/-- `tr(AᵀB) = tr(ABᵀ)`: the angle of `R₁ᵀR₂` and of `R₁R₂ᵀ` have the same cosine -/
-theorem trace_transpose_mul (A B : Mat3 ℝ) : (A.transpose.mul B).trace = (A.mul B.transpose).trace := by
-  lie_unfold; ring
 
 /-- **The loss is the angle of `R₁ᵀR₂`**: in the generic regime `geodesic = arccos((tr(R(x)ᵀR(y)) − 1)/2)` — the principal
 rotation angle in `[0, π]` of the relative rotation (pass 3: `arccos` form, transpose on either side). -/
@@ -1448,22 +1517,6 @@ theorem geodesic_reductions_range (eps : ℝ) (h0 : 0 ≤ eps) (h1 : eps ≤ 1 /
     · have hn : (0 : ℝ) < (l.length : ℝ) := by exact_mod_cast h
       rw [div_le_iff₀ hn]; linarith
 
-/-- **Item-wise = batched** (hardening class 7): the loss of a batch is the list of the losses of its items, so an item's
-value cannot depend on the regime of its neighbours. -/
-theorem geodesicAll_append (eps : ℝ) (xs xs' ys ys' : List (Quat ℝ)) (h : xs.length = ys.length) :
-    geodesicAll eps (xs ++ xs') (ys ++ ys') = geodesicAll eps xs ys ++ geodesicAll eps xs' ys' := by
-  unfold geodesicAll
-  exact List.zipWith_append h
-
-/-- APE errors without alignment are computed pose by pose: concatenating trajectories concatenates the error lists. -/
-theorem apeCore_append (eps atol : ℝ) (alignFn : List (Vec3 ℝ) → List (Vec3 ℝ) → Sim3 ℝ) (et : EType)
-    (rp rp' ep ep' : List (SE3 ℝ)) (h : rp.length = ep.length) :
-    apeCore eps atol alignFn et .none (rp ++ rp') (ep ++ ep')
-      = apeCore eps atol alignFn et .none rp ep ++ apeCore eps atol alignFn et .none rp' ep' := by
-  unfold apeCore
-  simp only [transOf, List.map_append]
-  exact List.zipWith_append (by simpa using h)
-
 /-! ### non-vacuity -/
 example : SO3.Valid (⟨0.6, 0, 0, 0.8⟩ : Quat ℝ) := by unfold SO3.Valid; lie_unfold; norm_num
 example : stats ([3, -4] : List ℝ) = stats [3, -4] ∧ ([3, -4] : List ℝ) ≠ [] := ⟨rfl, by simp⟩
@@ -1473,6 +1526,84 @@ example : ∀ (i : Nat) (hi : i < ([0.001, 1.001] : List ℝ).length),
   intro i hi
   have : i = 0 ∨ i = 1 := by simp at hi; omega
   rcases this with rfl | rfl <;> norm_num [abs_lt]
+
+/-! a NON-TRIVIAL instance of the `svdstf` contract: source = the six vertices `±eᵢ` of the octahedron (not collinear), target =
+the octahedron scaled by 2, rotated by `q₀ = (0, 0, 0.6, 0.8)` (angle `2·atan(3/4)` about z) and shifted by `d = (1, 2, 3)`; rigid
+mode (scale fixed to 1). The optimum is `A = (d, q₀, 1) ≠ identity` with NON-ZERO residual `6`, and it is unique as a
+transformation: for every admissible `T = (t, q, 1)`, `cost T = 6 + 6‖t − d‖² + 32 (x² + y² + (0.8 z − 0.6 w)²)`. -/
+
+noncomputable def octaP : List (Vec3 ℝ) := [⟨1, 0, 0⟩, ⟨-1, 0, 0⟩, ⟨0, 1, 0⟩, ⟨0, -1, 0⟩, ⟨0, 0, 1⟩, ⟨0, 0, -1⟩]
+noncomputable def octaQ : List (Vec3 ℝ) :=
+  [⟨39 / 25, 98 / 25, 3⟩, ⟨11 / 25, 2 / 25, 3⟩, ⟨-23 / 25, 64 / 25, 3⟩, ⟨73 / 25, 36 / 25, 3⟩, ⟨1, 2, 5⟩, ⟨1, 2, 1⟩]
+noncomputable def octaA : Sim3 ℝ := ⟨⟨1, 2, 3⟩, ⟨0, 0, 3 / 5, 4 / 5⟩, 1⟩
+
+theorem cost_octa (t : Vec3 ℝ) (q : Quat ℝ) (hq : q.x * q.x + q.y * q.y + q.z * q.z + q.w * q.w = 1) :
+    cost ⟨t, q, 1⟩ octaP octaQ = 6 + 6 * ((t.x - 1) ^ 2 + (t.y - 2) ^ 2 + (t.z - 3) ^ 2)
+      + 32 * (q.x ^ 2 + q.y ^ 2 + (4 / 5 * q.z - 3 / 5 * q.w) ^ 2) := by
+  simp only [cost, octaP, octaQ, List.zipWith_cons_cons, List.zipWith_nil_right, List.sum_cons, List.sum_nil, Sim3Act]
+  lie_unfold
+  linear_combination (16 * (q.x * q.x + q.y * q.y + q.z * q.z) - 288 / 25) * hq
+
+/-- the contract holds at a rotated, shifted, scaled target with non-zero residual (non-vacuity of `AlignOK`, rigid mode) -/
+theorem alignOK_octahedron : AlignOK true octaA octaP octaQ ∧ cost octaA octaP octaQ = 6 ∧ ¬ Sim3Equiv octaA Sim3one := by
+  have hA : cost octaA octaP octaQ = 6 := by
+    unfold octaA
+    rw [cost_octa _ _ (by norm_num)]
+    norm_num
+  have hform : ∀ T : Sim3 ℝ, Sim3.Valid T → T.s = 1 →
+      cost T octaP octaQ = 6 + 6 * ((T.t.x - 1) ^ 2 + (T.t.y - 2) ^ 2 + (T.t.z - 3) ^ 2)
+        + 32 * (T.q.x ^ 2 + T.q.y ^ 2 + (4 / 5 * T.q.z - 3 / 5 * T.q.w) ^ 2) := by
+    intro T hT hs
+    have hq : T.q.x * T.q.x + T.q.y * T.q.y + T.q.z * T.q.z + T.q.w * T.q.w = 1 := hT.1
+    have : T = ⟨T.t, T.q, 1⟩ := by cases T; simp only at hs; rw [hs]
+    rw [this]; exact cost_octa _ _ hq
+  refine ⟨⟨⟨by unfold octaA; lie_unfold; norm_num, by unfold octaA; norm_num⟩, fun _ => rfl, ?_, ?_⟩, hA, ?_⟩
+  · intro T hT hs
+    rw [hA, hform T hT (hs rfl)]
+    have n1 := sq_nonneg (T.t.x - 1)
+    have n2 := sq_nonneg (T.t.y - 2)
+    have n3 := sq_nonneg (T.t.z - 3)
+    have n4 := sq_nonneg T.q.x
+    have n5 := sq_nonneg T.q.y
+    have n6 := sq_nonneg (4 / 5 * T.q.z - 3 / 5 * T.q.w)
+    linarith
+  · intro T hT hs hc
+    rw [hA, hform T hT (hs rfl)] at hc
+    have hq : T.q.x * T.q.x + T.q.y * T.q.y + T.q.z * T.q.z + T.q.w * T.q.w = 1 := hT.1
+    have n1 := sq_nonneg (T.t.x - 1)
+    have n2 := sq_nonneg (T.t.y - 2)
+    have n3 := sq_nonneg (T.t.z - 3)
+    have n4 := sq_nonneg T.q.x
+    have n5 := sq_nonneg T.q.y
+    have n6 := sq_nonneg (4 / 5 * T.q.z - 3 / 5 * T.q.w)
+    have z1 : (T.t.x - 1) ^ 2 = 0 := by linarith
+    have z2 : (T.t.y - 2) ^ 2 = 0 := by linarith
+    have z3 : (T.t.z - 3) ^ 2 = 0 := by linarith
+    have z4 : T.q.x ^ 2 = 0 := by linarith
+    have z5 : T.q.y ^ 2 = 0 := by linarith
+    have z6 : (4 / 5 * T.q.z - 3 / 5 * T.q.w) ^ 2 = 0 := by linarith
+    have e1 : T.t.x = 1 := by have := pow_eq_zero_iff (two_ne_zero) |>.mp z1; linarith
+    have e2 : T.t.y = 2 := by have := pow_eq_zero_iff (two_ne_zero) |>.mp z2; linarith
+    have e3 : T.t.z = 3 := by have := pow_eq_zero_iff (two_ne_zero) |>.mp z3; linarith
+    have e4 : T.q.x = 0 := pow_eq_zero_iff (two_ne_zero) |>.mp z4
+    have e5 : T.q.y = 0 := pow_eq_zero_iff (two_ne_zero) |>.mp z5
+    have e6 : T.q.z = 3 / 4 * T.q.w := by have := pow_eq_zero_iff (two_ne_zero) |>.mp z6; linarith
+    rw [e4, e5, e6] at hq
+    have hw : (T.q.w - 4 / 5) * (T.q.w + 4 / 5) = 0 := by ring_nf; ring_nf at hq; linarith
+    refine ⟨by ext <;> simp [octaA, e1, e2, e3], by rw [hs rfl]; rfl, ?_⟩
+    rcases mul_eq_zero.mp hw with h | h
+    · left
+      have hw' : T.q.w = 4 / 5 := by linarith
+      ext <;> simp only [octaA, e4, e5, e6, hw'] <;> norm_num
+    · right
+      have hw' : T.q.w = -(4 / 5) := by linarith
+      ext <;> simp only [octaA, Quat.neg, e4, e5, e6, hw'] <;> norm_num
+  · intro h
+    have := congrArg Vec3.x h.1
+    simp [octaA, Sim3one, Vec3.zero] at this
+
+/-- the octahedron vertices are not collinear: consistent with `alignOK_collinear_false` -/
+example : ¬ Collinear octaP := fun h => alignOK_collinear_false true octaA octaP octaQ h alignOK_octahedron.1
 
 /-- the `svdstf` contract is satisfiable: three non-collinear points aligned with themselves -/
 example : AlignOK false Sim3one [Vec3.zero, Vec3.e0, Vec3.e1] [Vec3.zero, Vec3.e0, (Vec3.e1 : Vec3 ℝ)] := by
